@@ -9,7 +9,8 @@ Variable g funs : list (list nat * expr).
 Variable ignored : option nat.
 Variable t : list nat.
 Variable rx : nat -> nat -> option nat.
-Hypothesis Hg : forall r b, nth_error g r = Some ([], b) -> wf g ignored t rx [] b.
+Hypothesis Hg : forall r ps b, nth_error g r = Some (ps, b) -> wf g funs ignored t rx ps b.
+Hypothesis Hfuns : forall fid ps b, nth_error funs fid = Some (ps, b) -> wf g funs ignored t rx ps b.
 Hypothesis Hign : forall r, ignored = Some r -> exists es, nth_error g r = Some ([], Skip es).
 
 Definition expected_outcome (v : value) (q : nat) (full : bool) : outcome :=
@@ -19,7 +20,7 @@ Definition expected_outcome (v : value) (q : nat) (full : bool) : outcome :=
 
 Theorem parse_three_outcomes : forall fuel entry b p full,
   nth_error g entry = Some ([], b) ->
-  match peg g ignored t rx fuel [] b p,
+  match peg g funs ignored t rx fuel [] b p,
         parse_model true g funs ignored t rx fuel entry p full with
   | Spec.Fuel, Entry.Fuel => True
   | Raise, _ => True
@@ -29,10 +30,10 @@ Theorem parse_three_outcomes : forall fuel entry b p full,
   end.
 Proof.
   intros fuel entry b p full Hb. unfold parse_model. rewrite Hb.
-  pose proof (exec_refines_peg g funs ignored t rx Hg Hign fuel b [] [] (fresh p)
-                (Hg entry b Hb) (scope_nil) (sub_nil _)) as H.
+  pose proof (exec_refines_peg g funs ignored t rx Hg Hfuns Hign fuel b [] [] (fresh p)
+                (Hg entry [] b Hb) (scope_nil) (sub_nil _)) as H.
   unfold agree in H. cbn [pos fresh] in H.
-  destruct (peg g ignored t rx fuel [] b p) as [| | |v q],
+  destruct (peg g funs ignored t rx fuel [] b p) as [| | |v q],
            (exec true g funs ignored t rx fuel b (fresh p)) as [s'| |]; try contradiction; auto.
   - destruct H as (A & _). rewrite A. exact I.
   - destruct H as (A & B & C & D). rewrite A. subst. reflexivity.
